@@ -916,6 +916,11 @@ func (ls *LanceroSource) distributeData(buffersMsg BuffersChanType) *dataBlock {
 }
 
 // stop ends the data streaming on all active lancero devices.
+// abortStart stops any collector and adapter that StartRun had already started when it failed.
+func (ls *LanceroSource) abortStart() {
+	ls.stop()
+}
+
 func (ls *LanceroSource) stop() error {
 	for _, device := range ls.active {
 		if device.collRunning {
